@@ -111,7 +111,7 @@ func c11ReloadEval(f []string) (string, []string) {
 		return "bad-case", nil
 	}
 	if !c11IsWorker() {
-		return c11Isolated("c11.reload", f, 1)
+		return c11Isolated("c11.reload", f, 1, "total")
 	}
 	return c11InWorker(c11ReloadLocal, f)
 }
@@ -357,4 +357,5 @@ func c11ReloadGen(g *hx.Gen) {
 
 func init() {
 	hx.Register(&hx.Stream{ID: "C11", Name: "c11.reload", Gen: c11ReloadGen, Eval: c11ReloadEval, Serial: true, Setup: c11Setup, Teardown: c11Teardown})
+	hx.Register(&hx.Stream{ID: "C11", Name: "c11.htcache", Gen: c11HtGen, Eval: c11HtEval, Serial: true, Setup: c11Setup, Teardown: c11Teardown})
 }
